@@ -22,6 +22,18 @@ from vf.gen import fixed as G
 
 F32 = np.float32
 
+# Generated magnitudes are exactly 0, a deliberate denormal probe, or >= MIN_MAG:
+# then a non-zero difference between a code and its input is never a float32
+# subnormal (which the TF CPU kernels flush to zero inside x + (xq - x)).
+MIN_MAG = 1e-30
+SNAP = 1e-20        # what the tensor strategies actually snap to 0 (so that an
+                    # element 2^-8 below the channel maximum is still >= MIN_MAG)
+
+
+def snap0(v, bound=SNAP):
+  v = float(F32(v))
+  return 0.0 if abs(v) < bound else v
+
 # two-sided 7-sigma level of a normal: 2*(1-Phi(7)) = 2.56e-12
 LEVEL = 2.56e-12
 LOGL = math.log(2.0 / LEVEL)
@@ -157,7 +169,8 @@ def fixed_inv(m, t):
   x = np.asarray(x, dtype=np.float64)
   gb = min(m["gen_bound"], 2.0 ** 22 * m["u_in"])
   x = np.clip(x, -gb * 0.99, gb * 0.99)
-  return x.astype(F32)
+  x = x.astype(F32)
+  return np.where(np.abs(x) < MIN_MAG, F32(0.0), x).astype(F32)
 
 
 FRACS = [0.0, 0.5, 0.25, 0.75, 0.125, 0.9, 0.03, 0.97, 0.3, 0.6]
@@ -480,7 +493,7 @@ def sign_tensor_strategy(cfg):
                              min_size=R, max_size=R))
       else:
         vals = draw(st.lists(st.floats(-1.5, 1.5, width=32), min_size=R, max_size=R))
-      col = [float(F32(v * (mag if kind != "codes" else 1.0))) for v in vals]
+      col = [snap0(v * (mag if kind != "codes" else 1.0)) for v in vals]
       if all(v == 0.0 for v in col):
         col[0] = float(F32(mag))
       if kind != "codes" and draw(st.booleans()):
@@ -540,7 +553,7 @@ def auto_tensor_strategy(cfg):
       vals = draw(st.lists(st.one_of(st.floats(-1.0, 1.0, width=32),
                                      st.sampled_from([0.0, 1.0, -1.0, 0.5, 0.3, -0.7])),
                            min_size=R, max_size=R))
-      col = [float(F32(v * mag)) for v in vals]
+      col = [snap0(v * mag) for v in vals]
       if max(abs(v) for v in col) < mag / 8:
         col[0] = float(F32(mag))
       cols.append(col)
